@@ -151,6 +151,37 @@ CLAIMED = {
        "zero frames of header-less DWVW.",
   technique="Coq proof (per-sample round trips, staging-loop induction, generic block-stream theorem) + model prediction of stored codes + round-trip oracle",
   design_ref="DESIGN.md section 5 C01"),
+ "C04": dict(
+  text="Theorems (Coq): the AIFF 80-bit sample-rate field returns every rate 1 <= r < 2^30 exactly (symbolic in r) and is refuted from 2^30 (witness); for any "
+       "block length B, block codec with dec(enc b) = b and write history, the closed file holds F items with N <= F < N + B. Tie: K correspondence of "
+       "uint2tenbytefloat / tenbytefloat2int (static functions of aiff.c reached by inclusion); frame counts and stored codes of sample-granular files are "
+       "predicted by the model in C01 / C05; re-open oracle over every writable container x encoding x channels{1,2,3,8,256,1024} x rates {1 .. 2^31-1} x N "
+       "{0,1,2,7,64,505,1001} split over calls and types with stale SF_INFO.frames: channels, container, encoding, rate (exact for integer-Hz containers), "
+       "N <= F < N + B, reading delivers exactly F frames then EOF.",
+  note="Trusted: Coq kernel, Ext80.v (tied by K), Stream.v (block codecs abstract). Header writers / parsers of the 23 containers are decided by the oracle. B is "
+       "measured on the implementation (one-frame file). Known findings: AIFF rate >= 2^30, PAF24 / SDS final block, tiny SD2 files, PVF short header.",
+  technique="Coq proof (symbolic arithmetic for the 80-bit rate, generic block-stream theorem) + differential K correspondence + re-open oracle",
+  design_ref="DESIGN.md section 5 C04"),
+ "C07": dict(
+  text="Theorems (Coq): for any block length, per-block codec and two histories of write calls with the same concatenated samples the written blocks and the "
+       "flushed final block are identical (induction over the call lists); the staged conversion loops equal the per-sample map for every length, so "
+       "splitting a call cannot change the bytes; the PEAK value / position equals that of the concatenated signal for every partition. Oracle: byte length, "
+       "header digest and data digest of the closed files for every writable container x encoding x channels{1,2,3} written as one call, one frame per "
+       "call, 3+rest, random split, 161-frame calls, N-1+1, alternating item / frame variants, SFC_UPDATE_HEADER_NOW in between, process clock pinned.",
+  note="Trusted: Coq kernel, Stream.v / Peak.v (encoders abstract and deterministic), the pinned clock (link-time wrap of time()). Concrete encoders and header "
+       "writers are decided by the digest oracle. Known findings: VOX odd-length calls, XI header without update.",
+  technique="Coq proof (partition independence by induction) + byte-digest oracle across write partitions",
+  design_ref="DESIGN.md section 5 C07"),
+ "C11": dict(
+  text="Theorems (Coq): at every point of every write history the blocks already emitted decode to exactly the first floor(N/B)*B items written so far (the "
+       "rest, fewer than B, is still in memory); header updates do not change the finished file. Oracle: for every container with a rewritable header x "
+       "encoding (ALAC excluded) x channels{1,2}: after every write in auto-update mode or explicit SFC_UPDATE_HEADER_NOW the stored bytes are copied and "
+       "opened by a second handle: same parameters, frame count = frames written (whole blocks for block codecs), reading delivers exactly that count and "
+       "those frames equal the first frames of the finished file.",
+  note="Trusted: Coq kernel, Stream.v (block writers abstract). Header writers / parsers are decided by the crash-image oracle. Known findings: AIFF/DWVW bit "
+       "reservoir, SDS / PAF24 final block.",
+  technique="Coq proof (prefix invariant of block writers by induction) + crash-image oracle at every update point",
+  design_ref="DESIGN.md section 5 C11"),
 }
 
 
